@@ -37,6 +37,41 @@ E-grid (complete products, no sampling) over
             (state counts, FCf, Hamiltonian, dipoles, Molecule Hamiltonian) is that of fresh
             objects given the last values directly (the same reference as everywhere).
 
+* near-degenerate : Huang-Rhys factors that are NEARLY equal (S0 and S0(1+e), e = 1e-8..1e-2)
+            or very small (1e-13..1e-5) next to the ordinary ones; every mode slot of a
+            2-3 molecule / 2-mode aggregate independently takes every value and sign (so
+            both orders of every pair occur) x ground-state displacement; and as a HISTORY:
+            the same Aggregate built before with displacements that differ by delta =
+            1e-8..1e-2 (key "delta" of the second-build history).  Each mode's overlaps are
+            those of ITS OWN Huang-Rhys factor (same reference, same tolerance).
+* many-shifts : number of mode slots 1..9 (thorough 20) x number of pairwise DIFFERENT
+            Huang-Rhys factors among them 1..slots (ladder 0.1, 0.2, ...) x shape {one, two
+            modes per molecule} x level pattern x sign pattern x coupling {0, J}: large
+            aggregates in which up to 41 different displacement differences are needed.
+* post-build : LATER CALLS on the built Aggregate object before the matrices are looked at
+            again: all ordered pairs (thorough: triples) of {diagonalize, reading the
+            operators inside eigenbasis_of(H), get_StateVector, get_DensityMatrix (three
+            condition types), get_transition sweep, exciton analysis getters, build() again,
+            rebuild()}; after EVERY call of the sequence H, the dipole operator and FCf are
+            compared again - retrieved anew and through the objects held from before the
+            calls - with electronic quantity x product of overlaps.
+
+* three-level : molecules with THREE electronic levels in the aggregate (levels per molecule
+            pattern [3], [3,2], [2,3], [3,3], [3,2,3] ... x every slot of a three-level
+            molecule independently takes every (HR, sign) of level 1 x (HR, sign) of level 2 x
+            (n0, n1, n2) x dipole pattern of the transitions 0-1, 1-2, 0-2 x multiplicity).
+            Signatures = all level tuples with at most `mult` excitations; a dipole element is
+            the dipole declared for exactly the two levels between which the one molecule
+            changes x overlaps D(d_a - d_b) of the two levels; H couplings: 0-1 hops = J x
+            overlaps; blocks that involve a second excited level: product structure only
+            (one fitted number per block x overlaps).  One-molecule cases: three-block
+            Molecule.get_Hamiltonian.
+* mol-frequency : one molecule whose modes have ANOTHER frequency in the excited state
+            (ratio w_e/w_g x route Mode.set_energy | set_all x HR x sign x levels x 1-3
+            modes x ground-state displacement): Molecule.get_Hamiltonian element-wise and
+            spectrum against E_e + sum w(e)(a+a - dQ + d^2/2 + 1/2), zero-point terms
+            included (only one common constant is free).
+
 Oracles (mc/refmodels/fc_laguerre.py, closed Laguerre formula, no diagonalisation, no
 quantarhei): see the clause list in run().
 
@@ -63,6 +98,43 @@ JFAC = {(0, 1): 1.0, (0, 2): -0.6, (1, 2): 1.7}
 MAXLIB = 20                      # the library tabulates 20 levels per shift
 
 
+def _e_el(i):
+    """transition energy of molecule i (tabulated for the first three, a fixed non-degenerate
+    formula beyond)"""
+    return E_EL[i] if i < len(E_EL) else 0.9 + 0.013 * ((5 * i) % 17)
+
+
+def _dip(i):
+    if i < len(DIPS):
+        return DIPS[i]
+    return [round(float(numpy.cos(0.7 * i)), 6), round(float(numpy.sin(0.7 * i)), 6),
+            round(0.1 * i - 0.5, 6)]
+
+
+DIP3 = ["all-different", "1-2-parallel-to-0-1", "no-0-2"]
+
+
+def _dips3(i, pattern):
+    """declared transition dipoles of the three-level molecule i: 0-1 as for two-level
+    molecules; 1-2 and 0-2 by pattern"""
+    d01 = [float(x) for x in _dip(i)]
+    d12 = [round(0.7 * d01[1] - 0.2, 6), round(-0.5 * d01[2] + 0.6, 6), round(0.4 * d01[0], 6)]
+    d02 = [round(0.3 * d01[2] + 0.1, 6), round(0.2 * d01[0], 6), round(-0.3 * d01[1] + 0.25, 6)]
+    if pattern == "1-2-parallel-to-0-1":
+        d12 = [round(1.4 * x, 6) for x in d01]
+    elif pattern == "no-0-2":
+        d02 = [0.0, 0.0, 0.0]
+    elif pattern != "all-different":
+        raise isolation.HarnessError("unknown dipole pattern %r" % (pattern,))
+    return {"0-1": d01, "1-2": d12, "0-2": d02}
+
+
+def _jfac(i, j):
+    if (i, j) in JFAC:
+        return JFAC[(i, j)]
+    return (-1.0) ** (i + j) * 1.3 / float(j - i) ** 2
+
+
 # --------------------------------------------------------------------------
 # specs
 # --------------------------------------------------------------------------
@@ -75,24 +147,41 @@ def _spec(case):
     W = W_SETS[case.get("wset", "A")]
     d0 = float(case.get("d0", 0.0))
     nm = case["nm"]
+    lev = list(case.get("lev") or [2] * len(nm))      # electronic levels per molecule
     mols, k = [], 0
     for i, nmod in enumerate(nm):
         modes = []
         for _ in range(nmod):
             sl = case["slots"][k]
             w = float(sl["w"]) if "w" in sl else W[k]
-            modes.append({"w": w, "d": [d0, _shift(sl["S"], sl["sg"])],
-                          "n": [int(sl["n0"]), int(sl["n1"])],
-                          "S": float(sl["S"]), "sg": int(sl["sg"]),
-                          "n0": int(sl["n0"]), "n1": int(sl["n1"]),
-                          "r": sl.get("r"), "hist": list(sl.get("hist") or [])})
+            md = {"w": w, "d": [d0, _shift(sl["S"], sl["sg"])],
+                  "n": [int(sl["n0"]), int(sl["n1"])],
+                  "S": float(sl["S"]), "sg": int(sl["sg"]),
+                  "n0": int(sl["n0"]), "n1": int(sl["n1"]),
+                  "r": sl.get("r"), "hist": list(sl.get("hist") or [])}
+            if lev[i] == 3:
+                # second excited level of the molecule: its own displacement and levels
+                md["d"].append(_shift(sl["S2"], sl["sg2"]))
+                md["n"].append(int(sl["n2"]))
+                md["S2"], md["sg2"] = float(sl["S2"]), int(sl["sg2"])
+            elif lev[i] != 2:
+                raise isolation.HarnessError("2 or 3 electronic levels per molecule")
+            if "wr" in sl:
+                # the mode has another frequency in the excited state: w_e = wr * w_g
+                md["ws"] = [w, w * float(sl["wr"])]
+                md["wroute"] = sl.get("wroute", "set_energy")
+            modes.append(md)
             k += 1
-        mols.append({"E": [0.0, E_EL[i]], "dip": DIPS[i], "modes": modes})
+        mol = {"E": [0.0, _e_el(i)], "dip": _dip(i), "modes": modes}
+        if lev[i] == 3:
+            mol["E"].append(round(1.93 * _e_el(i) + 0.02 * i, 10))
+            mol["dips"] = _dips3(i, case.get("dip3", "all-different"))
+        mols.append(mol)
     n = len(nm)
     J = [[0.0] * n for _ in range(n)]
     for i in range(n):
         for j in range(i + 1, n):
-            J[i][j] = J[j][i] = float(case.get("J", 0.0)) * JFAC[(i, j)]
+            J[i][j] = J[j][i] = float(case.get("J", 0.0)) * _jfac(i, j)
     return {"mols": mols, "J": J}
 
 
@@ -157,13 +246,44 @@ def _molecule(qr, mol, viol, dev, stage="fresh", pending=None):
     list): the final settings are not applied but appended to it as callables (the caller
     applies them later, e.g. when the molecule already belongs to an Aggregate)."""
     m = qr.Molecule(elenergies=list(mol["E"]))
-    m.set_dipole(0, 1, list(mol["dip"]))
+    if mol.get("dips") is not None:
+        for key, vec in mol["dips"].items():
+            a, b = (int(x) for x in key.split("-"))
+            if any(v != 0.0 for v in vec):
+                m.set_dipole((a, b), list(vec))
+    else:
+        m.set_dipole(0, 1, list(mol["dip"]))
     two_phase = pending is not None or any(md.get("hist") for md in mol["modes"])
 
     def final(mode, md, later):
-        _apply_setting(mode, md, md["w"], viol, dev, later)
+        w1 = md["w"]
+        if md.get("ws") is not None:
+            # another frequency in the excited state, by Mode.set_energy or through set_all
+            w1 = md["ws"][1]
+            if md["wroute"] == "set_energy":
+                mode.set_energy(1, w1)
+            elif md["wroute"] != "set_all":
+                raise isolation.HarnessError("unknown frequency route %r" % (md["wroute"],))
+            md = dict(md, r="all") if md["wroute"] == "set_all" else md
+        _apply_setting(mode, md, w1, viol, dev, later)
         if md["d"][0] != 0.0:
             mode.set_shift(0, md["d"][0])
+        if len(md["d"]) == 3:
+            mode.set_nmax(2, int(md["n"][2]))
+            if md["sg2"] > 0:
+                mode.set_HR(2, md["S2"])
+            else:
+                mode.set_shift(2, md["d"][2])
+            if abs(mode.get_HR(2) - md["S2"]) > TOL * max(1.0, md["S2"]):
+                viol.append(("hr/set-get-roundtrip/level-2",
+                             "Huang-Rhys factor %g of the second excited level comes back "
+                             "as %g" % (md["S2"], mode.get_HR(2)), None))
+        if md.get("ws") is not None:
+            got = [float(mode.get_energy(e)) for e in range(2)]
+            if max(abs(got[e] - md["ws"][e]) for e in range(2)) > TOL:
+                viol.append(("mode/frequency-set-get-roundtrip",
+                             "mode frequencies %s in (g, e) set by %s come back as %s"
+                             % (md["ws"], md["wroute"], got), None))
 
     todo = []
     for md in mol["modes"]:
@@ -350,6 +470,14 @@ def _blocktype(la, lb):
     return "%s-%s" % (nm[lo], nm[hi])
 
 
+def _reference(spec, elsigs, labels_lib, sigma, fem):
+    """reference FCf, H, dipoles in the order of the library's state labels"""
+    labels, FC, H, DD = F.aggregate_reference(spec, elsigs, sigma, full=fem)
+    pos = {l: k for k, l in enumerate(labels)}
+    perm = numpy.array([pos[l] for l in labels_lib])
+    return FC[numpy.ix_(perm, perm)], H[numpy.ix_(perm, perm)], DD[numpy.ix_(perm, perm)]
+
+
 def eval_agg(case):
     qr = isolation.qr()
     viol, dev = [], {}
@@ -387,12 +515,15 @@ def eval_agg(case):
     if case.get("history") == "second-build":
         # HISTORY: the same Aggregate object was built before with other displacements; the
         # displacements are then set to the values of this case and build() is called again
+        # (case["delta"]: by how much the earlier displacements differ; default 0.9, small
+        # values = an earlier build with NEARLY the same displacements)
         olds = []
+        delta = float(case.get("delta", 0.9))
         for m in mols:
             for k in range(m.get_number_of_modes()):
                 md = m.get_Mode(k)
                 olds.append((md, md.get_shift(1)))
-                md.set_shift(1, md.get_shift(1) + 0.9)
+                md.set_shift(1, md.get_shift(1) + delta)
         agg.build(mult=mult, fem_full=fem)
         isolation.reset_units()
         for md, sh in olds:
@@ -413,7 +544,8 @@ def eval_agg(case):
         isolation.reset_units()
 
     # ---- clause: number of vibronic states per electronic state ------------
-    want_sigs = F.el_signatures(nmol, mult)
+    nlev = [len(mol["E"]) for mol in spec["mols"]]
+    want_sigs = F.el_signatures(nmol, mult, nlev)
     lib_sigs = [tuple(int(x) for x in s) for s in agg.elsigs]
     if sorted(lib_sigs) != sorted(want_sigs) or len(set(lib_sigs)) != len(lib_sigs):
         viol.append(("count/electronic-signatures",
@@ -476,15 +608,32 @@ def eval_agg(case):
 
     # ---- reference in the library's order of electronic states ---------------
     def reference(sigma):
-        labels, FC, H, DD = F.aggregate_reference(spec, lib_sigs, sigma, full=fem)
-        pos = {l: k for k, l in enumerate(labels)}
-        perm = numpy.array([pos[l] for l in labels_lib])
-        return FC[numpy.ix_(perm, perm)], H[numpy.ix_(perm, perm)], DD[numpy.ix_(perm, perm)]
+        return _reference(spec, lib_sigs, labels_lib, sigma, fem)
 
     offd = ~numpy.eye(ntot_want, dtype=bool)
 
+    # blocks of the Hamiltonian between electronic states that differ on two molecules one of
+    # which is in its second excited level: which multiple of the 0-1 resonance coupling
+    # applies there is the package's convention, not an input - the electronic quantity is
+    # FITTED (one number per block, least squares) and only the product structure (that
+    # number x the overlaps of all modes) is claimed
+    free_blocks = []
+    if max(nlev) > 2:
+        members = {}
+        for a, (les, _) in enumerate(labels_lib):
+            members.setdefault(les, []).append(a)
+        for ea in lib_sigs:
+            for eb in lib_sigs:
+                if ea != eb and not F.el_coupling_defined(ea, eb):
+                    free_blocks.append(numpy.ix_(members[ea], members[eb]))
+
     def compare(sigma):
         FCr, Hr, DDr = reference(sigma)
+        for blk in free_blocks:
+            B = FCr[blk]
+            den = float(numpy.sum(B * B))
+            c = float(numpy.sum(numpy.real(Hl[blk]) * B)) / den if den > 0 else 0.0
+            Hr[blk] = c * B
         res = {}
         e, k = _maxerr(Fl, FCr)
         res["fcf"] = (e, k, 1.0, Fl, FCr)
@@ -573,6 +722,15 @@ def eval_agg(case):
     dev["poisson"] = worst_p
     dev["orth"] = worst_o
 
+    # ---- later calls on the same Aggregate, then the same observations again ----
+    npost = 0
+    if case.get("after"):
+        if ok:
+            npost = _check_after(qr, agg, spec, case, lib_sigs, labels_lib, sigma, fem, mult,
+                                 viol, dev)
+        else:
+            npost = -1
+
     nsweeps = ncalls = 0
     if "ctx" in case:
         nsweeps, ncalls = _check_coupling_calls(qr, agg, spec, case, labels_lib, lib_sigs,
@@ -585,8 +743,131 @@ def eval_agg(case):
     out = ["agg", counts, sigma, round(float(numpy.sum(numpy.abs(Fl))), 7),
            round(offsum, 9), round(float(numpy.sum(numpy.abs(Dl))), 7),
            round(float(numpy.trace(Hl)), 7), molout, case.get("ctx"), ncalls]
+    if case.get("after"):
+        out.append([list(case["after"]), npost])
     return {"nontrivial": nontrivial, "outcome": out, "violations": _dedupe(viol),
-            "info": info, "n": nsweeps}
+            "info": info, "n": nsweeps + max(npost, 0)}
+
+
+# --------------------------------------------------------------------------
+# later calls on the same (built) Aggregate before the matrices are looked at again
+# --------------------------------------------------------------------------
+POSTOPS = ["diagonalize", "eigenbasis-read", "state-vector", "density-matrix", "transitions",
+           "exciton-analysis", "build-again", "rebuild"]
+
+
+def _post_op(qr, agg, op, mult, case):
+    """One later call on the built aggregate.  Returns "done" or "refused" (the call states
+    that it needs a diagonalized aggregate)."""
+    try:
+        if op == "diagonalize":
+            agg.diagonalize()
+        elif op == "eigenbasis-read":
+            # the operators are looked at in the eigenbasis of the Hamiltonian; the context
+            # is left again before the site-basis observation
+            H = agg.get_Hamiltonian()
+            with qr.eigenbasis_of(H):
+                numpy.array(H.data)
+                numpy.array(agg.get_TransitionDipoleMoment().data)
+        elif op == "state-vector":
+            agg.get_StateVector(condition_type="impulsive_excitation")
+        elif op == "density-matrix":
+            agg.get_DensityMatrix(condition_type="impulsive_excitation")
+            agg.get_DensityMatrix(condition_type="thermal", temperature=300.0)
+            agg.get_DensityMatrix(condition_type="thermal_excited_state", temperature=300.0)
+        elif op == "transitions":
+            for a in range(int(agg.Ntot)):
+                agg.get_transition(a, 0)
+        elif op == "exciton-analysis":
+            try:
+                agg.get_state_energy(1)
+                agg.get_transition_dipole(0, 1)
+            except Exception as e:                   # noqa: the stated refusal only
+                if "has to be diagonalized" in str(e):
+                    return "refused"
+                raise
+        elif op == "build-again":
+            if "fem" in case:
+                agg.build(mult=mult, fem_full=bool(case["fem"]))
+            else:
+                agg.build(mult=mult)
+        elif op == "rebuild":
+            agg.rebuild(mult=mult)                   # clean() + build()
+        else:
+            raise isolation.HarnessError("unknown later call %r" % (op,))
+    finally:
+        isolation.reset_units()
+    return "done"
+
+
+def _state_labels(agg):
+    out = []
+    for a in range(int(agg.Ntot)):
+        les, lvs = agg.vibsigs[a]
+        out.append((tuple(int(x) for x in les),
+                    tuple(int(x) for x in lvs) if lvs is not None else ()))
+    return out
+
+
+def _check_after(qr, agg, spec, case, lib_sigs, labels0, sigma, fem, mult, viol, dev):
+    """case["after"] = sequence of later calls made on the built Aggregate (POSTOPS).  After
+    EVERY call of the sequence (no units or basis context open) the Hamiltonian, the dipole
+    operator and FCf are looked at again, (a) as retrieved anew from the aggregate and (b)
+    through the objects that were retrieved before the calls: all of them still have to be
+    electronic quantity x product of the modes' overlaps (the reference of the first
+    observation, orientation included).  Stops at the first call after which something is
+    off.  Returns the number of re-observations."""
+    held = (agg.get_Hamiltonian(), agg.get_TransitionDipoleMoment(), agg.FCf)
+    ref0 = _reference(spec, lib_sigs, labels0, sigma, fem)
+    nobs = 0
+    done = []
+    for op in case["after"]:
+        status = _post_op(qr, agg, op, mult, case)
+        done.append(op if status == "done" else op + "(refused)")
+        labels = _state_labels(agg)
+        if labels == labels0:
+            ref = ref0
+        elif sorted(labels) == sorted(labels0):
+            ref = _reference(spec, lib_sigs, labels, sigma, fem)
+        else:
+            viol.append(("post-build/%s/state-labels" % op,
+                         "after the calls %s the aggregate carries other vibronic states than "
+                         "after the build" % (done,), None))
+            return nobs
+        fresh = (agg.get_Hamiltonian(), agg.get_TransitionDipoleMoment(), agg.FCf)
+        bad = False
+        for how, objs, rf, lab in (("retrieved-after", fresh, ref, labels),
+                                   ("held-from-before", held, ref0, labels0)):
+            got = {"H": numpy.asarray(objs[0].data), "dipole": numpy.asarray(objs[1].data),
+                   "fcf": numpy.asarray(objs[2])}
+            want = {"H": rf[1], "dipole": rf[2], "fcf": rf[0]}
+            for name in ("fcf", "H", "dipole"):
+                e, k = _maxerr(got[name], want[name])
+                sc = max(float(numpy.max(numpy.abs(want[name]))), 1e-300)
+                dn = "post-build-%s" % name
+                if numpy.isfinite(e):
+                    dev[dn] = max(dev.get(dn, 0.0), e / sc)
+                nobs += 1
+                if not e <= TOL * sc:
+                    bad = True
+                    la, lb = (lab[k[0]], lab[k[1]]) if k is not None else (None, None)
+                    viol.append(("post-build/%s/%s/%s" % (op, name, how),
+                                 "after the later calls %s on the built aggregate, %s (%s) "
+                                 "between %s and %s is %s; electronic quantity x product of "
+                                 "the modes' Franck-Condon overlaps is %s"
+                                 % (done, name,
+                                    "retrieved again from the aggregate"
+                                    if how == "retrieved-after"
+                                    else "object retrieved before the calls",
+                                    la, lb,
+                                    numpy.round(got[name][k[:2]], 12).tolist()
+                                    if k is not None else "shape %s" % (got[name].shape,),
+                                    numpy.round(want[name][k[:2]], 12).tolist()
+                                    if k is not None else "shape %s" % (want[name].shape,)),
+                                 {"err": e, "calls": done}))
+        if bad:
+            break
+    return nobs
 
 
 # --------------------------------------------------------------------------
@@ -748,14 +1029,20 @@ def _check_molecule(qr, spec, viol, dev, stage="fresh"):
     H = m.get_Hamiltonian(recalculate=True) if (seen and two_phase) else m.get_Hamiltonian()
     isolation.reset_units()
     data = numpy.asarray(H.data)
-    dims = [F.state_count({"mols": [mol]}, (e,)) for e in range(2)]
+    nel = len(mol["E"])
+    dims = [F.state_count({"mols": [mol]}, (e,)) for e in range(nel)]
     if data.shape != (sum(dims), sum(dims)):
         viol.append(("mol-H/dimension", "Molecule Hamiltonian is %s, electronic states carry "
                      "%s vibronic states" % (data.shape, dims), None))
         return "bad-dim"
     scale = float(numpy.max(numpy.abs(data)))
     asym = float(numpy.max(numpy.abs(data - data.T)))
-    offb = float(numpy.max(numpy.abs(data[:dims[0], dims[0]:]))) if all(dims) else 0.0
+    inblock = numpy.zeros(data.shape, dtype=bool)
+    o = 0
+    for n in dims:
+        inblock[o:o + n, o:o + n] = True
+        o += n
+    offb = float(numpy.max(numpy.abs(data[~inblock]))) if (~inblock).any() else 0.0
     dev["mol-H-offblock"] = max(asym, offb) / max(scale, 1e-300)
     if asym > TOL * scale:
         viol.append(("mol-H/not-symmetric", "asymmetry %g" % asym, None))
@@ -778,7 +1065,7 @@ def _check_molecule(qr, spec, viol, dev, stage="fresh"):
     c = ref_all[0] - lib_all[0]          # the library puts its lowest level at zero
     off = 0
     worst_t = 0.0
-    for es in range(2):
+    for es in range(nel):
         lam = numpy.linalg.eigvalsh(sym[off:off + dims[es], off:off + dims[es]]) + c
         off += dims[es]
         undisplaced = all(md["d"][es] == 0.0 for md in mol["modes"])
@@ -808,9 +1095,34 @@ def _check_molecule(qr, spec, viol, dev, stage="fresh"):
 
 
 # --------------------------------------------------------------------------
+def eval_mol(case):
+    """One molecule, Molecule.get_Hamiltonian only (no aggregate): modes whose frequency in
+    the excited electronic state differs from the ground-state one.  Every electronic state e
+    carries, per mode, w(e)(a+a - d(e) Q + d(e)^2/2 + 1/2) with ITS frequency w(e) - the
+    zero-point energies w(e)/2 included, so that the distance between the vibronic ladders of
+    two electronic states contains the change of the zero-point energy."""
+    qr = isolation.qr()
+    viol, dev = [], {}
+    spec = _spec(case)
+    if len(spec["mols"]) != 1:
+        raise isolation.HarnessError("kind 'mol' is a one-molecule case")
+    mol = spec["mols"][0]
+    _molecule(qr, mol, viol, dev)                    # set/get round trips are reported here
+    molout = _check_molecule(qr, spec, viol, dev)
+    changed = any(md.get("ws") is not None and md["ws"][1] != md["ws"][0]
+                  for md in mol["modes"])
+    shifted = any(md["d"][1] != md["d"][0] and md["n"][0] * md["n"][1] > 1
+                  for md in mol["modes"])
+    out = ["mol", molout, [[md.get("ws"), md.get("wroute")] for md in mol["modes"]]]
+    return {"nontrivial": changed or shifted, "outcome": out, "violations": _dedupe(viol),
+            "info": {"dev": dev}}
+
+
 def eval_case(case):
     if case["kind"] == "shiftop":
         return eval_shiftop(case)
+    if case["kind"] == "mol":
+        return eval_mol(case)
     return eval_agg(case)
 
 
@@ -887,6 +1199,110 @@ J1, J2 = 0.02, -0.035
 FEM = [False, True]
 
 
+# --------------------------------------------------------------------------
+# nearly equal Huang-Rhys factors / very small ones
+# --------------------------------------------------------------------------
+def _near(S0, eps):
+    """Huang-Rhys factors S0 and S0(1+e) for the relative offsets e (shift differences of
+    about sqrt(S0/2) e), simplest first"""
+    return [S0] + [S0 * (1.0 + e) for e in eps]
+
+
+def _after_sequences(ops, length):
+    """ALL sequences of `length` later calls (ordered, repetitions included)"""
+    seqs = [[]]
+    for _ in range(length):
+        seqs = [q + [o] for q in seqs for o in ops]
+    return seqs
+
+
+# --------------------------------------------------------------------------
+# three-level molecules / modes with another frequency in the excited state
+# --------------------------------------------------------------------------
+def _slot_alphabet3(shifts1, shifts2, levels):
+    """complete product (S, sign) of level 1 x (S, sign) of level 2 x (n0, n1, n2)"""
+    return [{"S": S, "sg": sg, "S2": S2, "sg2": sg2, "n0": n0, "n1": n1, "n2": n2}
+            for (S, sg) in shifts1 for (S2, sg2) in shifts2 for (n0, n1, n2) in levels]
+
+
+def _section_lev(nm, lev, a2, a3, extra):
+    """All cases of one aggregate shape with lev[i] electronic levels on molecule i: every
+    mode slot of a two-level molecule takes every value of a2, every slot of a three-level
+    molecule every value of a3."""
+    dom, k = {}, 0
+    for i, nmod in enumerate(nm):
+        for _ in range(nmod):
+            dom["slot%d" % k] = a3 if lev[i] == 3 else a2
+            k += 1
+    dom.update(extra)
+    out = []
+    for c in product(dom):
+        case = {"kind": "agg", "nm": list(nm), "lev": list(lev),
+                "slots": [c["slot%d" % q] for q in range(k)]}
+        for key in extra:
+            case[key] = c[key]
+        out.append(case)
+    return out
+
+
+def _freq_alphabet(shifts, levels, ratios, routes):
+    """complete product (S, sign) x (n0, n1) x frequency ratio w_e/w_g x route by which the
+    excited-state frequency is set"""
+    return [{"S": S, "sg": sg, "n0": n0, "n1": n1, "wr": wr, "wroute": rt}
+            for (S, sg) in shifts for (n0, n1) in levels for wr in ratios for rt in routes]
+
+
+def _mol_section(nmodes, alphabet, extra):
+    return [dict(c, kind="mol") for c in _section([nmodes], alphabet, extra)]
+
+
+WROUTES = ["set_energy", "set_all"]
+
+
+# --------------------------------------------------------------------------
+# many modes with (up to) pairwise different Huang-Rhys factors in one aggregate
+# --------------------------------------------------------------------------
+MANY_SHAPES = ["1-mode-per-molecule", "2-modes-per-molecule"]
+MANY_LEVELS = {"g1-e2": lambda k: (1, 2),                    # levels of slot k
+               "first-two-g2-e2": lambda k: (2, 2) if k < 2 else (1, 2),
+               "g1-e3": lambda k: (1, 3)}
+MANY_SIGNS = {"plus": lambda k: 1, "alternating": lambda k: 1 if k % 2 == 0 else -1}
+
+
+def _many_case(nslots, ndistinct, shape, levels, signs, J):
+    """nslots mode slots; slot k has the Huang-Rhys factor number (k mod ndistinct) of the
+    ladder 0.1, 0.2, 0.3, ... (ndistinct pairwise different values in the aggregate), its own
+    frequency, levels and sign of the shift by pattern."""
+    per = 1 if shape == "1-mode-per-molecule" else 2
+    if nslots % per:
+        return None
+    slots = []
+    for k in range(nslots):
+        n0, n1 = MANY_LEVELS[levels](k)
+        slots.append({"S": round(0.1 * (1 + k % ndistinct), 10), "sg": MANY_SIGNS[signs](k),
+                      "n0": n0, "n1": n1, "w": round(0.05 + 0.005 * k, 10)})
+    return {"kind": "agg", "nm": [per] * (nslots // per), "slots": slots, "J": J, "mult": 1,
+            "many": {"slots": nslots, "distinct": ndistinct, "shape": shape, "levels": levels,
+                     "signs": signs}}
+
+
+def _many(nmax, shapes, levels, signs, Js):
+    """complete product number of slots 1..nmax x number of distinct Huang-Rhys factors
+    1..slots x shape x level pattern x sign pattern x resonance coupling (0: uncoupled
+    molecules, the overlaps and dipoles alone)"""
+    out = []
+    for n in range(1, nmax + 1):
+        for nd in range(1, n + 1):
+            for sh in shapes:
+                for lv in levels:
+                    for sg in signs:
+                        for J in Js:
+                            c = _many_case(n, nd, sh, lv, sg, J)
+                            if c is not None:
+                                out.append(c)
+    return out
+
+
 def _shiftop_direct(Ss, Ns):
     """complete product basis size x Huang-Rhys factor x argument class of the direct call
     operator_factory(N).shift_operator(d), |d|^2/2 = S (S = 0: one phase, d = 0)."""
@@ -953,6 +1369,43 @@ def sections(tier):
         sec["history-2mol"] = _section([1, 1], _histories(_settings(HRH, ["HR"], L1), 2),
                                        {"J": [J1], "stage": ["fresh", "in-aggregate",
                                                              "after-build"]})
+        # nearly equal (and very small) Huang-Rhys factors on the modes of one aggregate:
+        # every slot independently takes every value, so both orders of every pair occur
+        nd = _slot_alphabet(_signed([0, 1e-11, 1e-7] + _near(0.5, [1e-7, 1e-5, 1e-3])),
+                            [(2, 3)])
+        nd3 = _slot_alphabet([(S, 1) for S in [1e-7] + _near(0.5, [1e-7, 1e-3])], [(2, 2)])
+        sec["near-degenerate"] = (
+            _section([1, 1], nd, {"J": [J1], "d0": [0.0]}) +
+            _section([2], nd, {"wset": ["B"], "d0": [0.3]}) +
+            _section([1, 1, 1], nd3, {"J": [J1]}) +
+            _section([1, 1], q6, {"J": [J1], "history": ["second-build"],
+                                  "delta": [1e-4, 1e-7]}))
+        # many modes with up to pairwise different Huang-Rhys factors in one aggregate
+        sec["many-shifts"] = _many(9, MANY_SHAPES, ["first-two-g2-e2"], ["alternating"],
+                                   [0.0, J1])
+        # molecules with THREE electronic levels (a second excited level with its own
+        # displacement, level count and transition dipoles 1-2 and 0-2) in the aggregate
+        a2 = _slot_alphabet([(0.5, -1), (1, 1)], [(2, 2), (1, 3)])
+        a3 = _slot_alphabet3([(0.5, -1), (1, 1)], [(0.3, 1), (0.8, -1)], [(2, 2, 2), (1, 3, 2)])
+        a3s = _slot_alphabet3([(0.5, -1), (1, 1)], [(0.3, 1), (0.8, -1)], [(2, 2, 2)])
+        sec["three-level"] = (
+            _section_lev([1], [3], a2, a3, {"mult": [1, 2], "dip3": DIP3}) +
+            _section_lev([1, 1], [3, 2], a2, a3, {"J": [J1], "mult": [2], "dip3": DIP3[:2]}) +
+            _section_lev([1, 1], [2, 3], a2, a3, {"J": [J1], "mult": [2], "dip3": DIP3[:2]}) +
+            _section_lev([1, 1], [3, 3], a2, a3s, {"J": [J1], "mult": [2], "dip3": DIP3[:2]}))
+        # modes with another frequency in the excited electronic state (one molecule,
+        # Molecule.get_Hamiltonian)
+        sec["mol-frequency"] = (
+            _mol_section(1, _freq_alphabet([(0, 1), (0.5, -1), (1, 1)],
+                                           [(2, 2), (1, 3), (3, 2)], [1.0, 0.8, 1.4], WROUTES),
+                         {"d0": [0.0, 0.3]}) +
+            _mol_section(2, _freq_alphabet([(0, 1), (1, 1)], [(2, 2)], [1.0, 0.8, 1.4], WROUTES),
+                         {"wset": ["A"]}))
+        # later calls on the built aggregate, then the same observations again: all ordered
+        # pairs of later calls (observed after each of the two)
+        sec["post-build"] = [dict(c, after=q)
+                             for q in _after_sequences(POSTOPS, 2)
+                             for c in _section([1, 1], q2, {"J": [J1], "mult": [1, 2]})]
     else:
         sec["shiftop"] = [{"kind": "shiftop", "S": S, "sg": sg, "N": N}
                           for N in ("default", 150)
@@ -1020,6 +1473,65 @@ def sections(tier):
                      {"J": [J2], "mult": [2], "stage": ["fresh", "after-build"]}) +
             _section([1, 1], _histories(_settings(HRH, ["HR"], L1), 3),
                      {"J": [J1], "stage": ["fresh", "after-build"]}))
+        eps = [1e-8, 1e-7, 1e-6, 1e-5, 1e-4, 1e-3, 1e-2]
+        nd = _slot_alphabet(_signed([0, 1e-13, 1e-11, 1e-9, 1e-7, 1e-5] + _near(0.5, eps)),
+                            [(2, 3)])
+        nd2 = _slot_alphabet(_signed([0, 1e-11, 1e-7] + _near(0.1, [1e-7, 1e-5, 1e-3]) +
+                                     _near(2.0, [1e-7, 1e-5, 1e-3])), [(3, 2)])
+        nd3 = _slot_alphabet([(S, sg) for S in [1e-7] + _near(0.5, [1e-7, 1e-5, 1e-3])
+                              for sg in (1, -1)], [(2, 2)])
+        sec["near-degenerate"] = (
+            _section([1, 1], nd, {"J": [J1], "d0": [0.0, 0.3]}) +
+            _section([1, 1], nd2, {"J": [J2], "mult": [2]}) +
+            _section([2], nd, {"wset": ["A", "B"]}) +
+            _section([1, 1, 1], nd3, {"J": [J1]}) +
+            _section([1, 1], t9, {"J": [J1], "history": ["second-build"],
+                                  "delta": [1e-2, 1e-4, 1e-6, 1e-8]}) +
+            _section([1], _slot_alphabet(_signed([0.1, 0.5, 2]), [(2, 3)]),
+                     {"d0": [0.0, 0.3], "history": ["second-build"],
+                      "delta": [1e-2, 1e-4, 1e-6, 1e-8]}))
+        sec["many-shifts"] = _many(20, MANY_SHAPES, sorted(MANY_LEVELS), sorted(MANY_SIGNS),
+                                   [0.0, J1])
+        a2 = _slot_alphabet([(0, 1), (0.5, -1), (1, 1)], [(2, 2), (1, 3), (3, 2)])
+        a3 = _slot_alphabet3([(0, 1), (0.5, -1), (1, 1)], [(0, 1), (0.3, 1), (0.8, -1)],
+                             [(2, 2, 2), (1, 3, 2), (3, 2, 3)])
+        a3s = _slot_alphabet3([(0.5, -1), (1, 1)], [(0.3, 1), (0.8, -1)], [(2, 2, 2), (1, 3, 2)])
+        a2s = _slot_alphabet([(0.5, -1), (1, 1)], [(2, 2)])
+        a3t = _slot_alphabet3([(0.5, -1), (1, 1)], [(0.3, 1), (0.8, -1)], [(2, 2, 2)])
+        sec["three-level"] = (
+            _section_lev([1], [3], a2, a3, {"mult": [1, 2], "dip3": DIP3, "d0": [0.0, 0.3]}) +
+            _section_lev([2], [3], a2, a3s, {"mult": [2], "dip3": DIP3}) +
+            _section_lev([1, 1], [3, 2], a2, a3, {"J": [J1], "mult": [1, 2], "dip3": DIP3}) +
+            _section_lev([1, 1], [2, 3], a2, a3, {"J": [J2], "mult": [2], "dip3": DIP3}) +
+            _section_lev([1, 1], [3, 3], a2, a3s, {"J": [J1], "mult": [2, 3], "dip3": DIP3}) +
+            _section_lev([2, 1], [3, 2], a2s, a3t, {"J": [J1], "mult": [2], "dip3": DIP3}) +
+            _section_lev([1, 1, 1], [3, 2, 3], a2s, a3t, {"J": [J1], "mult": [2],
+                                                         "dip3": DIP3[:2]}) +
+            _section_lev([1, 1, 1], [2, 3, 2], a2s, a3t, {"J": [J1], "mult": [2, 3],
+                                                         "dip3": DIP3[:2]}))
+        ratios = [1.0, 0.5, 0.8, 1.25, 1.4, 2.0]
+        sec["mol-frequency"] = (
+            _mol_section(1, _freq_alphabet(_signed([0, 0.1, 0.5, 1, 2]),
+                                           _pairs([1, 2, 3, 5]), ratios, WROUTES),
+                         {"d0": [0.0, 0.3]}) +
+            _mol_section(2, _freq_alphabet([(0, 1), (0.5, -1), (1, 1)], [(2, 2), (1, 3)],
+                                           [1.0, 0.8, 1.4], WROUTES), {"wset": ["A", "B"]}) +
+            _mol_section(3, _freq_alphabet([(0, 1), (1, 1)], [(2, 2)], [1.0, 0.8, 1.4],
+                                           WROUTES), {"wset": ["A"]}))
+        sec["post-build"] = (
+            [dict(c, after=q) for q in _after_sequences(POSTOPS, 3)
+             for c in _section([1, 1], _slot_alphabet([(0.5, -1), (1, 1)], [(2, 2)]),
+                               {"J": [J1], "mult": [1, 2]})] +
+            [dict(c, after=q) for q in _after_sequences(POSTOPS, 2)
+             for c in (_section([1, 1], t4, {"J": [J2], "mult": [1, 2]}) +
+                       _section([2, 1], _slot_alphabet([(0.5, -1), (1, 1)], [(2, 2)]),
+                                {"J": [J1], "mult": [1, 2]}) +
+                       _section([1, 1, 1], _slot_alphabet([(0.5, -1), (1, 1)], [(2, 2)]),
+                                {"J": [J1], "mult": [2]}) +
+                       _section([1, 1], _slot_alphabet([(0.5, -1), (1, 1)], [(2, 2)]),
+                                {"J": [J1], "mult": [2], "fem": [True]}))
+             # rebuild() has no fem_full option: not combined with it
+             if not ("fem" in c and "rebuild" in q)])
     return sec
 
 
@@ -1044,7 +1556,18 @@ def run(run):
                 "ordered pairs (triples) of settings (route set_HR | set_shift | set_all) x HR "
                 "(0 included) x level counts, repetitions included, x stage of the final "
                 "setting {fresh molecule, after Molecule.get_Hamiltonian, molecule already in "
-                "the Aggregate, after a build with the earlier settings}.  non-trivial = at "
+                "the Aggregate, after a build with the earlier settings}; near-degenerate: "
+                "every slot takes every (Huang-Rhys factor in {0, tiny values, S0, S0(1+e)}, "
+                "sign) x ground-state shift, and second-build histories whose earlier "
+                "displacements differ by delta; many-shifts: slots 1..N x number of distinct "
+                "Huang-Rhys factors 1..slots x shape x level pattern x sign pattern x coupling "
+                "{0, J}; post-build: all sequences of 2 (3) later calls on the built "
+                "aggregate x slots x multiplicity, observation after every call, both "
+                "re-retrieved and held objects; three-level: electronic levels per molecule "
+                "pattern x every slot (HR, sign) level 1 x (HR, sign) level 2 x level counts "
+                "x dipole pattern x multiplicity; mol-frequency: every slot (HR, sign) x "
+                "levels x frequency ratio w_e/w_g x route {set_energy, set_all} x number of "
+                "modes x ground-state shift (Molecule.get_Hamiltonian).  non-trivial = at "
                 "least one mode with a non-zero displacement between g and e and more than "
                 "one level (shiftop: HR > 0)")
     run.assumptions = [
@@ -1052,8 +1575,23 @@ def run(run):
         "diagonalisation); self-check of the reference (unitarity, group law, Poisson, scipy "
         "Laguerre) must be < 1e-12",
         "full vibrational state space only (vibgen_approx=None)",
-        "two-level molecules, equal mode frequency in both electronic states, energies in "
-        "internal units (no unit conversion involved; C05 owns units)",
+        "two-level molecules (section three-level: also three-level ones), equal mode "
+        "frequency in all electronic states (section mol-frequency: another frequency in the "
+        "excited state, Molecule.get_Hamiltonian only), energies in internal units (no unit "
+        "conversion involved; C05 owns units)",
+        "three-level molecules: electronic signatures = all level tuples with at most mult "
+        "excitations (number of excitations = sum of the levels); dipole between signatures "
+        "that differ on one molecule going a <-> b (|a-b| = 1 or 2) = the dipole declared for "
+        "a <-> b; resonance coupling J_kl only between signatures that differ by a 0-1 hop "
+        "on two molecules; for blocks in which a differing molecule is in level 2 the "
+        "electronic factor is the package's convention and is fitted (one number per block), "
+        "only block = number x product of overlaps is claimed; fem_full, coupling() calls, "
+        "histories and later calls are not combined with three-level molecules",
+        "mol-frequency: a mode with frequency w(e) in electronic state e contributes "
+        "w(e)(a+a - d(e)Q + d(e)^2/2 + 1/2) in the number basis of that state, zero-point "
+        "energy w(e)/2 included; the aggregate with such modes is not claimed (its state "
+        "energies carry no zero-point terms, and overlaps between oscillators of different "
+        "frequency are outside the displaced-oscillator law)",
         "either orientation of the oscillator coordinate is accepted (sigma=+1: overlap = "
         "<n_a|D(d_a-d_b)|n_b> as implemented; sigma=-1: mirrored), but one per aggregate",
         "Molecule.get_Hamiltonian, element-wise for all pairs of quantum-number tuples: equal "
@@ -1079,6 +1617,14 @@ def run(run):
         "for fresh objects); Molecule.get_Hamiltonian() stores its result by design, so "
         "after an earlier retrieval it is requested with recalculate=True; settings are made "
         "outside any units context (frequency passed to set_all in internal units)",
+        "post-build: Aggregate.get_Hamiltonian() / get_TransitionDipoleMoment() / FCf looked "
+        "at outside any basis or units context are site-basis quantities whenever they are "
+        "looked at, also after diagonalize() and other later calls, and objects retrieved "
+        "earlier keep their values (only calls that need no system-bath interaction; "
+        "'exciton analysis' getters may refuse with 'has to be diagonalized'); rebuild() has "
+        "no fem_full option and is not combined with it",
+        "many-shifts: electronic energies, dipoles and coupling factors of molecules beyond "
+        "the third from fixed formulas (_e_el, _dip, _jfac); mult=1",
     ]
     sc = F.selfcheck()
     if not sc < 1e-12:
@@ -1087,7 +1633,8 @@ def run(run):
     run.bounds = {"tolerance_R": TOL, "sections": {k: len(v) for k, v in secs.items()},
                   "HR": "0..2 (agg), 0..8 (shiftop)" if run.tier == "thorough" else "0..2",
                   "levels": "1..20" if run.tier == "thorough" else "1..5",
-                  "molecules": "1..3",
+                  "molecules": "1..3 (many-shifts: 1..%d)" % max(len(c["nm"])
+                                                                 for c in secs["many-shifts"]),
                   "modes_per_molecule": "0..4" if run.tier == "thorough" else "0..3",
                   "shift_argument_classes": [_phase_class(ph) for ph in PHASES],
                   "mult": [1, 2, 3], "fem_full": FEM,
@@ -1095,6 +1642,32 @@ def run(run):
                               "routes": ["HR", "shift", "all"],
                               "HR": [0, 0.3, 0.5, 0.6] if run.tier == "thorough"
                               else [0, 0.3, 0.6]},
+                  "near_degenerate": {"relative_offsets": "1e-8..1e-2" if run.tier == "thorough"
+                                      else "1e-7..1e-3",
+                                      "tiny_HR": "1e-13..1e-5" if run.tier == "thorough"
+                                      else "1e-11, 1e-7",
+                                      "second_build_delta": sorted(set(
+                                          c["delta"] for c in secs["near-degenerate"]
+                                          if "delta" in c))},
+                  "many_shifts": {"slots": "1..%d" % max(c["many"]["slots"]
+                                                         for c in secs["many-shifts"]),
+                                  "distinct_HR": "1..slots", "shapes": MANY_SHAPES,
+                                  "levels": sorted(set(c["many"]["levels"]
+                                                       for c in secs["many-shifts"])),
+                                  "signs": sorted(set(c["many"]["signs"]
+                                                      for c in secs["many-shifts"]))},
+                  "three_level": {"levels_per_molecule": sorted(set(
+                      tuple(c["lev"]) for c in secs["three-level"])), "dipole_patterns": DIP3,
+                                  "mult": sorted(set(c["mult"] for c in secs["three-level"]))},
+                  "mol_frequency": {"ratios": sorted(set(sl["wr"] for c in secs["mol-frequency"]
+                                                         for sl in c["slots"])),
+                                    "routes": WROUTES, "modes": "1..3" if run.tier == "thorough"
+                                    else "1..2"},
+                  "post_build": {"calls": POSTOPS,
+                                 "sequence_length": sorted(set(len(c["after"]) for c in
+                                                               secs["post-build"])),
+                                 "observed": ["H", "dipole", "FCf"],
+                                 "how": ["retrieved-after", "held-from-before"]},
                   "coupling_call_contexts": sorted(set(c["ctx"] for c in secs["coupling-call"])),
                   "coupling_call_inner": {"full": ["default", True], "states_made": MADE,
                                           "pairs": "all ordered pairs of vibronic states"}}
